@@ -5,17 +5,17 @@ import "fmt"
 // OpRecord is one client operation of the recorded history.  Call and Return
 // are values of the run-global event counter, so no two events tie.
 type OpRecord struct {
-	Task   string `json:"task"`
-	Op     string `json:"op"`
-	Args   any    `json:"args,omitempty"`
-	Call   int64  `json:"call"`
-	Return int64  `json:"ret"` // 0 while in flight
-	Result any    `json:"result,omitempty"`
-	Err    string `json:"err,omitempty"`
-	StepIn int64  `json:"step_in"`
-	StepOut int64 `json:"step_out"`
-	t      *Task
-	s      *Sim
+	Task    string `json:"task"`
+	Op      string `json:"op"`
+	Args    any    `json:"args,omitempty"`
+	Call    int64  `json:"call"`
+	Return  int64  `json:"ret"` // 0 while in flight
+	Result  any    `json:"result,omitempty"`
+	Err     string `json:"err,omitempty"`
+	StepIn  int64  `json:"step_in"`
+	StepOut int64  `json:"step_out"`
+	t       *Task
+	s       *Sim
 }
 
 // Begin parks the task at a client-operation boundary (so the scheduler
